@@ -633,20 +633,26 @@ def nontrivial(s):
     return len(s.split()) > 1 or any(c in s for c in "<>=!&|(")
 
 
-def run_cases(ctx, topo_specs, cases, sentinel=True):
-    """cases: list of dicts {topo: index into topo_specs, s: string, stream: name, malformed: kind or None}"""
+def run_cases(ctx, topo_specs, cases, pre=None):
+    """cases: list of dicts {topo: index into topo_specs, s: string, stream: name, malformed: kind or None}.
+    pre = (atoms_by_topo, results) when the implementation has already been run (history stream: 'topo' is then the
+    index of a topology VERSION and every case carries its own history for the replay)"""
     from concurrent.futures import ThreadPoolExecutor
-    pairs = [[c["topo"], c["s"]] for c in cases]
-    nproc = 4 if len(pairs) > 200 else 1
-    parts = [pairs[k::nproc] for k in range(nproc)]
-    with ThreadPoolExecutor(max_workers=nproc) as ex:
-        outs_p = list(ex.map(lambda part: ctx.run_impl("select_impl.py", {"mode": "run", "topologies": topo_specs,
-                                                                           "cases": part}, timeout=3000), parts))
-    atoms_by_topo = outs_p[0]["atoms"]
-    results = [None] * len(pairs)
-    for k, o in enumerate(outs_p):
-        results[k::nproc] = o["results"]
+    if pre is not None:
+        atoms_by_topo, results = pre
+    else:
+        pairs = [[c["topo"], c["s"]] for c in cases]
+        nproc = 4 if len(pairs) > 200 else 1
+        parts = [pairs[k::nproc] for k in range(nproc)]
+        with ThreadPoolExecutor(max_workers=nproc) as ex:
+            outs_p = list(ex.map(lambda part: ctx.run_impl("select_impl.py", {"mode": "run", "topologies": topo_specs,
+                                                                               "cases": part}, timeout=3000), parts))
+        atoms_by_topo = outs_p[0]["atoms"]
+        results = [None] * len(pairs)
+        for k, o in enumerate(outs_p):
+            results[k::nproc] = o["results"]
     ctx.log("implementation ran %d cases" % len(results))
+    tag = "history_" if pre is not None else ""
     # 0. derived attributes as the objects report them vs the model's derivation from the tables
     dcases = [(clist([coq_atom(a) for a in atoms], str), clist([coq_derived(a) for a in atoms], str))
               for atoms in atoms_by_topo]
@@ -658,9 +664,11 @@ def run_cases(ctx, topo_specs, cases, sentinel=True):
     for ti in bad:
         ctx.break_("correspondence:derived-attributes", "is_backbone/is_sidechain/is_protein/is_water/code of topology %d "
                    "differ from the model's derivation" % ti)
-        spec = topo_specs[ti]
+        witness = next((full_case(c, topo_specs) for c in cases if c["topo"] == ti), None)
+        if witness is None:
+            witness = {"topo_spec": topo_specs[ti] if topo_specs else None, "s": "protein", "stream": "derived", "version": ti}
         ctx.fail("atom/residue attributes (is_protein, is_water, is_backbone, is_sidechain, code) differ from their "
-                 "documented derivation", {"topo_spec": spec, "s": "protein", "stream": "derived"},
+                 "documented derivation", witness,
                  observed=[{k: a[k] for k in ("name", "resname", "is_backbone", "is_sidechain", "is_protein", "is_water",
                                               "code")} for a in atoms_by_topo[ti]],
                  expected="Coq: derived (documented gen_cfg)", tags={"kind": "derived_attributes"})
@@ -709,8 +717,8 @@ def run_cases(ctx, topo_specs, cases, sentinel=True):
     ma = [i for i in compared if codes.get(i, 0) & 1]
     mb = [i for i in compared if codes.get(i, 0) & 2]
     variant = "as_found" if not ma else ("single_literal_repaired" if not mb else None)
-    ctx.notes["coverage_extra"]["model_variant_matching_impl"] = variant
-    ctx.notes["coverage_extra"]["outside_model_domain"] = len(outside)
+    ctx.notes["coverage_extra"][tag + "model_variant_matching_impl"] = variant
+    ctx.notes["coverage_extra"][tag + "outside_model_domain"] = len(outside)
     if os.environ.get("C12_DEBUG"):
         with open(os.environ["C12_DEBUG"], "w") as fh:
             json.dump([{"s": cases[i]["s"], "impl": outs[i], "code": codes.get(i, 0), "stream": cases[i]["stream"],
@@ -736,7 +744,7 @@ def run_cases(ctx, topo_specs, cases, sentinel=True):
                 ctx.fail("a documented keyword or operator no longer has its documented meaning", full_case(cases[i], topo_specs),
                          observed=list(outs[i]), expected="Coq: select_str (documented gen_cfg)",
                          tags={"kind": "documented_meaning"})
-        ctx.notes["coverage_extra"]["differs_from_documented_tables"] = nbad
+        ctx.notes["coverage_extra"][tag + "differs_from_documented_tables"] = nbad
 
     def fail(kind, desc, i, expected, tags):
         budget[kind] = budget.get(kind, 0) + 1
@@ -769,7 +777,7 @@ def run_cases(ctx, topo_specs, cases, sentinel=True):
                      {"kind": "malformed_accepted", "class": c["malformed"]})
     # the static check of coq/Select/Types.v: a predicate it accepts can never raise TypeError
     n_wt = sum(1 for i in compared if codes.get(i, 0) & 64)
-    ctx.notes["coverage_extra"]["static_check"] = {
+    ctx.notes["coverage_extra"][tag + "static_check"] = {
         "well_typed_cases": n_wt, "typeerror_cases": sum(1 for i in compared if outs[i][0] == "typeerror"),
         "typeerror_cases_rejected_by_the_check": sum(1 for i in compared if outs[i][0] == "typeerror" and not codes.get(i, 0) & 64)}
     for i in compared:
@@ -789,7 +797,7 @@ def run_cases(ctx, topo_specs, cases, sentinel=True):
         elif c["stream"] == "lexical":
             accepted_as_found[c["malformed"]] = accepted_as_found.get(c["malformed"], 0) + 1
     if accepted_as_found:
-        ctx.notes["coverage_extra"]["lexical_classes_accepted_as_found_and_compared_with_model"] = accepted_as_found
+        ctx.notes["coverage_extra"][tag + "lexical_classes_accepted_as_found_and_compared_with_model"] = accepted_as_found
     for i, (c, o) in enumerate(zip(cases, outs)):
         ctx.count({"topo": c["topo"], "s": c["s"]}, nontrivial=nontrivial(c["s"]), bucket="%s/%s" % (c["stream"], o[0]))
         stats[o[0]] = stats.get(o[0], 0) + 1
@@ -797,8 +805,121 @@ def run_cases(ctx, topo_specs, cases, sentinel=True):
 
 def full_case(c, topo_specs):
     d = dict(c)
+    if "history" in d:
+        return d
     d["topo_spec"] = topo_specs[c["topo"]] if isinstance(c["topo"], int) else c["topo"]
     return d
+
+
+# ------------------------------------------------------------------------------------------------ histories
+HIST_SELECTIONS = ["n_bonds 2", "n_bonds == 0", "n_bonds 1 and water", "n_bonds >= 2 or name NA", "not (n_bonds 1 to 2)",
+                   "name MW O and n_bonds < 2", "n_bonds 1 3", "index 3 to 6", "index 0 2 4", "resid 1", "resi 0 2", "resSeq 2",
+                   "residue 1 to 3", "chainid 1", "chainid 0", "segment_id A", "segname SEG1 B", "water", "is_water", "protein",
+                   "backbone", "sidechain", "rescode A G", "code S", "mass < 2", "mass 12 to 16.5", "element H", "type C N",
+                   "symbol VS", "name CA", "name MW H1", "resname HOH SOL", "resn TIP2 ALA", "all", "not water and n_bonds 0"]
+
+
+def gen_history(rng, n_edits):
+    """a small topology, then selections interleaved with in-place edits.  Sizes are mirrored here only to keep the
+    edit arguments in range."""
+    names = ["GLY", "ALA", "HOH", "HOH", "SOL", "NA", "SER", "LIG"]
+    chains = []
+    for _ in range(rng.randint(1, 2)):
+        chains.append([(rng.choice(names), rng.choice([1, 2, 2, 3, 10]), rng.choice(SEGS)) for _ in range(rng.randint(2, 3))])
+    spec = topo_spec(chains)
+    sizes = [len(r["atoms"]) for c in spec["chains"] for r in c["residues"]]
+    nch = len(spec["chains"])
+    steps = []
+
+    def sels(k):
+        for s_ in rng.sample(HIST_SELECTIONS, k - 1) + [rng.choice(HIST_SELECTIONS[:7])]:
+            steps.append({"op": "sel", "s": s_})
+        if rng.random() < 0.5:
+            steps.append({"op": "sel", "s": gen_simple(rng)})
+
+    sels(5)
+    for _ in range(n_edits):
+        nat = sum(sizes)
+        kinds = ["insert", "insert", "insert", "bond", "rename_atom", "rename_res", "element", "resSeq", "segid", "chain_id"]
+        if nat > 3:
+            kinds += ["delete", "delete"]
+        k = rng.choice(kinds)
+        if k == "insert":
+            ri = rng.randrange(len(sizes))
+            where = rng.choice(["front", "middle", "end", "append"])
+            if where == "append":
+                ri = len(sizes) - 1
+            pos = 0 if where == "front" else sizes[ri] if where in ("end", "append") else rng.randint(0, sizes[ri])
+            steps.append({"op": "insert", "res": ri, "pos": pos, "append": where == "append",
+                          "name": rng.choice(["MW", "H3", "CB", "O", "X1"]), "element": rng.choice([None, "H", "C", "O", "N"])})
+            sizes[ri] += 1
+        elif k == "delete":
+            idx = rng.randrange(nat)
+            steps.append({"op": "delete", "index": idx})
+            acc = 0
+            for ri, sz in enumerate(sizes):
+                if idx < acc + sz:
+                    sizes[ri] -= 1
+                    break
+                acc += sz
+        elif k == "bond":
+            if nat >= 2:
+                i, j = rng.sample(range(nat), 2)
+                steps.append({"op": "bond", "i": i, "j": j})
+        elif k == "rename_atom" and nat:
+            steps.append({"op": "rename_atom", "index": rng.randrange(nat), "name": rng.choice(["CA", "N", "O", "H1", "MW", "HA", "NA"])})
+        elif k == "element" and nat:
+            steps.append({"op": "element", "index": rng.randrange(nat), "element": rng.choice(["H", "C", "N", "O", "Na", "Cl"])})
+        elif k == "rename_res":
+            steps.append({"op": "rename_res", "res": rng.randrange(len(sizes)),
+                          "name": rng.choice(["ALA", "GLY", "HOH", "TIP2", "WAT", "LIG", "ACE", "SOL", "NA"])})
+        elif k == "resSeq":
+            steps.append({"op": "resSeq", "res": rng.randrange(len(sizes)), "value": rng.choice([0, 1, 2, 3, 7])})
+        elif k == "segid":
+            steps.append({"op": "segid", "res": rng.randrange(len(sizes)), "value": rng.choice(SEGS)})
+        elif k == "chain_id":
+            steps.append({"op": "chain_id", "chain": rng.randrange(nch), "value": rng.choice(["A", "B", "Z"])})
+        sels(4)
+    return {"spec": spec, "steps": steps}
+
+
+def run_histories(ctx, histories):
+    """selections interleaved with in-place edits on ONE topology object per history; the model is evaluated on the
+    topology as it is after each edit (read independently of the attributes a cache could get wrong)"""
+    out = ctx.run_impl("select_impl.py", {"mode": "history", "histories": histories}, timeout=3000)
+    versions, results = out["atoms"], out["results"]
+    # which history / step prefix produced each result (for the replay)
+    cases, kept = [], []
+    it = iter(results)
+    for h in histories:
+        for si, st in enumerate(h["steps"]):
+            if st["op"] != "sel":
+                continue
+            r = next(it, None)
+            if r is None or "edit_error" in r:
+                if r is not None:
+                    ctx.break_("correspondence:history-edit", "an in-place edit raised: %s at %s" % (r["edit_error"], r["step"]))
+                break
+            cases.append({"topo": r["version"], "s": st["s"], "stream": "history", "malformed": None,
+                          "history": {"spec": h["spec"], "steps": h["steps"][:si + 1]}})
+            kept.append(r)
+        else:
+            continue
+        break
+    # the attributes the objects report must describe the topology as it is
+    for vi, atoms in enumerate(versions):
+        for a in atoms:
+            for attr, ind in (("attr_index", "index"), ("attr_n_bonds", "n_bonds"), ("attr_resindex", "resindex"),
+                              ("attr_chainindex", "chainindex")):
+                if a[attr] != a[ind]:
+                    w = next((c for c in cases if c["topo"] == vi), None)
+                    if w is not None:
+                        ctx.fail("after in-place edits the attribute %s of an atom no longer describes the topology" % attr[5:], w, observed={attr[5:]: a[attr], "atom": a["name"], "position": a["index"]},
+                                 expected={ind: a[ind]}, tags={"kind": "stale_attribute", "attr": attr[5:]})
+                    break
+    ctx.notes.setdefault("coverage_extra", {})["histories"] = {"histories": len(histories), "topology_versions": len(versions),
+                                                               "selections": len(cases)}
+    run_cases(ctx, None, cases, pre=(versions, kept))
 
 
 def build_cases(ctx):
@@ -970,6 +1091,8 @@ def correspond(ctx):
     specs, cases = build_cases(ctx)
     ctx.log("cases:", len(cases))
     run_cases(ctx, specs, cases)
+    # history axis: selections interleaved with in-place edits on one Topology object
+    run_histories(ctx, [gen_history(ctx.rng, ctx.rng.randint(3, 7)) for _ in range(10 if ctx.tier == "quick" else 150)])
     # sentinel: the model-free oracles on a small budget
     small_specs = [sp for sp in specs if sum(len(r["atoms"]) for c in sp["chains"] for r in c["residues"]) <= 60]
     run_meta(ctx, small_specs, 80 if ctx.tier == "quick" else 1500)
@@ -994,6 +1117,9 @@ def replay(ctx, rec):
         for x in out["bad"]:
             ctx.fail(rec["desc"], rec["case"], observed=x["observed"], expected=x["expected"], tags=rec.get("tags"),
                      stage="search")
+        return
+    if c.get("history"):
+        run_histories(ctx, [c["history"]])
         return
     spec = c.pop("topo_spec")
     c["topo"] = 0
